@@ -65,11 +65,17 @@ def _replay_chunk(edge_ids):
     g, W = _G, _W
     out = []
     queries = 0
-    for ei in edge_ids:
+    for item in edge_ids:
+        # item = edge index, or (self-loop edge, following edge): the loop is replayed first
+        pre = []
+        if isinstance(item, tuple):
+            pre, ei = [g.edges[item[0]]], item[1]
+        else:
+            ei = item
         e = g.edges[ei]
         tr = _tracker(W)
         hist = []
-        for pe in g.path_to(e["_s"]):
+        for pe in g.path_to(e["_s"]) + pre:
             _apply(tr, pe["act"])
             hist.append(pe["act"])
         st, ret = _apply(tr, e["act"])
@@ -106,7 +112,7 @@ def _b1(chk: Check, consts, label):
         raise common.MachineryError("MBT export failed:\n" + res.out[-2000:])
     g = Graph(res.printed())
     _G, _W = g, consts["W"]
-    ids = g.reachable_edges()
+    ids = g.reachable_edges() + g.selfloop_pairs()
     results = common.parallel_map(_replay_chunk, common.chunked(ids, common.NCPU * 4))
     q = sum(r[0] for r in results)
     chk.count(q)
